@@ -140,6 +140,22 @@ func (p c14) Gen(r *simhook.Rand, tier string, idx int) harness.Scenario {
 		}
 		sc.Conns = []ConnScript{{Name: "c0", Reqs: first}}
 		sc.Probes = []ConnScript{cs}
+	} else if sc.Env.Masters > 1 && r.Chance(1, 3) {
+		// class "slot-move": one slot changes its owner while the client works. The write that hits the moved slot
+		// is redirected; every request for a slot whose owner never changes is judged as always - also between the
+		// redirection and the next slot refresh
+		sc.Class += "+slot-move"
+		at := len(cs.Reqs) / 4
+		if at < 1 {
+			at = 1
+		}
+		at += r.Intn(at)
+		mk := fmt.Sprintf("qm:{%c%c%c}", 'a'+rune(r.Intn(26)), 'a'+rune(r.Intn(26)), 'a'+rune(r.Intn(26)))
+		mv := world.Request{Args: world.Bins("set", mk, "1"), Wait: true, Tag: mk}
+		reqs := append(append(append([]world.Request(nil), cs.Reqs[:at]...), mv), cs.Reqs[at:]...)
+		sc.Conns = []ConnScript{{Name: "c0", Reqs: reqs}}
+		slot := cluster.Slot([]byte(mk))
+		sc.Faults = []Fault{{Kind: "layout", From: slot, To: slot, Dst: r.Intn(sc.Env.Masters), AfterSend: r.Intn(at)}}
 	}
 	return sc
 }
@@ -206,7 +222,18 @@ func (p c14) Run(t *testing.T, s harness.Scenario) harness.Outcome {
 					if len(mine) == 0 {
 						return
 					}
-					if len(sc.Faults) > 0 && c.Name == "c0" && (len(w.faultSteps) == 0 || w.faultSteps[0] < 0 || sn.DoneStep >= w.faultSteps[0]) {
+					if len(sc.Faults) > 0 && sc.Faults[0].Kind == "layout" {
+						// slot-move: only the moved slot's owner changes; requests for every other slot are judged throughout
+						if len(args) > 1 {
+							k := args[1]
+							if name == "eval" && len(args) > 3 {
+								k = args[3]
+							}
+							if s := cluster.Slot(k); s >= sc.Faults[0].From && s <= sc.Faults[0].To {
+								return
+							}
+						}
+					} else if len(sc.Faults) > 0 && c.Name == "c0" && (len(w.faultSteps) == 0 || w.faultSteps[0] < 0 || sn.DoneStep >= w.faultSteps[0]) {
 						// the layout is changing under this request and the proxy cannot know yet: judged in the second block
 						return
 					}
